@@ -54,10 +54,20 @@ func C10(ctx *Ctx) {
 				return nil, false
 			}
 			st := &absint.State{Heap: absint.NewHeap(nil)}
+			var undecided []string
+			ip.Hooks.Branch = func(_ *absint.Interp, cond *absint.Bool, _ *ssa.If) {
+				undecided = append(undecided, absint.ValKey(cond))
+			}
 			res, out := ip.Call(fn, []absint.Val{r, addr}, nil, st)
 			cell := "offset<$8000"
 			if high {
 				cell = "offset>=$8000"
+			}
+			// every offset of the half is treated alike: a test that the half does not decide singles out some
+			// addresses (offset $8000 itself, say) for the other treatment
+			if len(undecided) > 0 {
+				R.Fail("window", name+":"+cell+":uniform", pos, fmt.Sprintf("the treatment of an address in this half depends on %s: some offsets of the half are handled like the other half", trunc(undecided[0])))
+				continue
 			}
 			if out == nil || len(ip.Imprec) > 0 {
 				R.Fail("window", name+":"+cell+":analysable", pos, fmt.Sprintf("not interpretable: %v", ip.Imprec))
@@ -348,6 +358,75 @@ func checkWriterWrite(ctx *Ctx, t types.Type, roles *wRoles) {
 		R.Pass("io-contract", "Write:no-short-copy", pos, "guard implies len(p) <= end-(start+o)")
 	} else {
 		R.Fail("io-contract", "Write:no-short-copy", pos, fmt.Sprintf("no guard in force at the copy bounds len(p) by the remaining window end-(start+o) = %s; guards: %v — a payload longer than the window is partially stored and reported as success", remKey, seen))
+	}
+	// exact fit: the write is accepted exactly when len(p) <= remaining (a strict test refuses a payload that
+	// fills the window to its last byte)
+	strict := false
+	for _, g := range run.copy.GuardL {
+		if g.Cmp == nil {
+			continue
+		}
+		x, _ := g.Cmp.X.(*absint.Int)
+		y, _ := g.Cmp.Y.(*absint.Int)
+		if x == nil || y == nil {
+			continue
+		}
+		op := g.Cmp.Op
+		if !g.Outcome {
+			op = map[string]string{">": "<=", ">=": "<", "<": ">=", "<=": ">", "==": "!=", "!=": "=="}[op]
+		}
+		if (lenKeys[x.Lin.Key()] && y.Lin.Key() == remKey && op == "<") || (x.Lin.Key() == remKey && lenKeys[y.Lin.Key()] && op == ">") {
+			strict = true
+		}
+	}
+	if strict {
+		R.Fail("io-contract", "Write:exact-fit", pos, "a payload of exactly the remaining window is refused (the test is len(p) < remaining): the last byte of the window can never be written together with its predecessors")
+	} else if implied {
+		R.Pass("io-contract", "Write:exact-fit", pos, "accepted exactly when len(p) <= remaining")
+	}
+	// what Write reports: the count of the copy and no error when accepted, zero and an error when refused
+	if tp, ok := run.res.(*absint.Tuple); ok && len(tp.E) == 2 {
+		acc := map[string]bool{}
+		rej := map[string]bool{}
+		for k, v := range run.copy.Guards {
+			acc[k] = v
+			rej[k] = !v
+		}
+		msg := ""
+		if nv, ok := tp.E[0].(*absint.Int); ok {
+			cres, _ := run.copy.Result.(*absint.Int)
+			if cres != nil && len(run.copy.Guards) > 0 {
+				if got := absint.Restrict(nv.Lin, acc).Key(); got != o.Convert(cres, nv.W, true, nv.Signed).Lin.Key() {
+					msg = "an accepted write reports " + trunc(got) + ", not the number of bytes copied"
+				}
+				if len(rej) == 1 {
+					if got := absint.Restrict(nv.Lin, rej).Key(); got != "0" {
+						msg = "a refused write reports " + trunc(got) + " bytes written"
+					}
+				}
+			}
+		}
+		// the error: nil exactly on the accepting side
+		errKey := absint.ValKey(tp.E[1])
+		if et, ok := tp.E[1].(*absint.Top); ok {
+			switch {
+			case et.Key == "nil":
+				msg = "Write never reports an error: a refused write looks like a successful empty one"
+			case et.NilIf != nil:
+				key, neg := absint.GateOf(et.NilIf)
+				want, ok := acc[key]
+				if !ok || want == neg {
+					msg = "the error is nil under " + key + ", which is not the accepting side of the capacity test"
+				}
+			case strings.Contains(errKey, "ite["):
+				// keyed merge: leave to the reader of the message
+			}
+		}
+		if msg != "" {
+			R.Fail("io-contract", "Write:result", pos, msg+" (result "+trunc(fmtVal(run.res))+")")
+		} else {
+			R.Pass("io-contract", "Write:result", pos, "accepted: (bytes copied, nil); refused: (0, error)")
+		}
 	}
 	// progress advance and refusal path
 	fin, _ := run.final[roles.prog].(*absint.Int)
